@@ -6,12 +6,12 @@ import pyref
 FAMILY = "countmin"
 CORR = "CountMin"          # Coq module DS.Corr.CountMin
 FAMNUM = 1                 # number in ocaml/Extract.v
-ORACLES = {"prop_ok": 0}   # oracle name -> number in Corr/CountMin.v [oracles]
+ORACLES = {"prop_ok": 0, "prop_roundtrip": 1, "prop_layout": 2, "no_panic": 3}   # oracle name -> number in Corr/CountMin.v [oracles]
 GEN_MODULES = [("GenCountMin", ["countmin/serialization.rs", "countmin/sketch.rs"],
                 ["PREAMBLE_LONGS_SHORT", "SERIAL_VERSION", "FLAGS_IS_EMPTY", "LONG_SIZE_BYTES", "MAX_TABLE_ENTRIES"])]
 TYPES = [(0, 255), (1, 65535), (2, 2**32 - 1), (3, 2**64 - 1), (4, 127), (5, 32767), (6, 2**31 - 1), (7, 2**63 - 1)]
 OPNAMES = {0: "new", 1: "update", 2: "estimate", 3: "serialize", 4: "merge", 5: "halve", 6: "decay",
-           7: "roundtrip", 8: "total", 9: "deserialize"}
+           7: "roundtrip", 8: "total", 9: "deserialize", 10: "fork"}
 
 
 def row_seeds(seed, nh):
@@ -93,12 +93,134 @@ def gen_case(rng, cid, tier, focus=None):
     return Case(cid, [ty, nh, nb, seed, sh], ops, tag="cm-ty%d" % ty)
 
 
+def header(nh, nb, sh, flags=0, pre=2, ver=1, fam=18):
+    return [pre, ver, fam, flags, 0, 0, 0, 0] + list(nb.to_bytes(4, "little")) + [nh] + list(sh.to_bytes(2, "little")) + [0]
+
+
+def gen_codec_case(rng, cid, tier):
+    """C11 focus: build a state, fork it through serialize/deserialize, then apply identical ops to both twins"""
+    ty, mx = rng.choice(TYPES)
+    nh = rng.choice([1, 2, 3, 5]); nb = rng.choice([3, 4, 7, 16, 64])
+    seed = rng.choice([9001, 0, 1, rng.getrandbits(64)])
+    if pyref.seed_hash(seed) == 0:
+        seed = 9001
+    sh = pyref.seed_hash(seed); seeds = row_seeds(seed, nh)
+    dom = [rng.randint(-20, 20) for _ in range(rng.choice([1, 3, 8]))]
+    bk = {x: buckets(x, seeds, nb) for x in set(dom)}
+    budget = min(mx, 2**62) // 8
+    ops = [(0, [0]), (0, [2])]
+    tot = 0
+    for _ in range(rng.choice([0, 1, 5, 30])):
+        x = rng.choice(dom); w = rng.randint(0, max(1, min(budget // 40, 1000)))
+        if tot + w > budget:
+            break
+        tot += w; ops.append((1, [0, x, w] + bk[x]))
+    x = rng.choice(dom); ops.append((1, [2, x, 1] + bk[x]))
+    ops.append((10, [0, 1]))
+    tw = (0, 1)
+    def both(code, rest):
+        for s in tw:
+            ops.append((code, [s] + rest))
+    both(3, []); both(8, [])
+    for x in sorted(set(dom)) + [777]:
+        b = bk.get(x) or buckets(x, seeds, nb)
+        both(2, [x] + b)
+    for _ in range(rng.choice([1, 4, 10])):
+        r = rng.random()
+        if r < 0.6:
+            x = rng.choice(dom); w = rng.randint(0, 3)
+            if tot + w <= budget:
+                tot += w; both(1, [x, w] + bk[x])
+        elif r < 0.75 and tot + 1 <= budget:
+            tot += 1; both(4, [2])
+        elif r < 0.85 and ty < 4:
+            tot //= 2; both(5, [])
+        elif ty < 4:
+            both(6, [f64bits(rng.choice([0.5, 0.75, 1.0]))])
+        both(3, [])
+        x = rng.choice(dom); both(2, [x] + bk[x])
+    both(7, []); both(3, []); both(8, [])
+    return Case(cid, [ty, nh, nb, seed, sh], ops, tag="cm-codec-ty%d" % ty)
+
+
+def gen_malformed_case(rng, cid, tier):
+    """C14 focus: structure-aware mutations of valid images + random bytes through deserialize, then use the value"""
+    ty, mx = rng.choice(TYPES)
+    nh = rng.choice([1, 2, 3]); nb = rng.choice([3, 4, 5, 8])
+    seed = 9001; sh = pyref.seed_hash(seed); seeds = row_seeds(seed, nh)
+    cells = [rng.randint(0, min(mx, 1000)) for _ in range(nh * nb + 1)]
+    img = header(nh, nb, sh) + [b for c in cells for b in c.to_bytes(8, "little")]
+    ops = []
+    for _ in range(12 if tier == "quick" else 40):
+        b = list(img)
+        r = rng.random()
+        if r < 0.25:
+            i = rng.randrange(min(len(b), 16)); b[i] = rng.choice([0, 1, 2, 3, 18, 255, rng.randrange(256)])
+        elif r < 0.45:
+            b = b[:rng.randrange(len(b) + 1)]
+        elif r < 0.6:
+            i = rng.randrange(len(b)); b[i] ^= 1 << rng.randrange(8)
+        elif r < 0.7:
+            b[8:12] = list(rng.choice([0, 1, 2, 3, 6, 2**32 - 1, 2**31]).to_bytes(4, "little"))
+        elif r < 0.78:
+            b[12] = rng.choice([0, 1, 127, 255])
+        elif r < 0.86:
+            b[3] = rng.choice([1, 3, 255]); b = b[:rng.choice([16, len(b)])]
+        elif r < 0.93:
+            b = b + [rng.randrange(256) for _ in range(rng.randrange(20))]
+        else:
+            b = [rng.randrange(256) for _ in range(rng.randrange(40))]
+        ops.append((9, [0] + b))
+        x = rng.randint(-5, 5)
+        # a value returned as Ok must be usable: query, update, merge with itself-clone, re-serialize
+        ops += [(8, [0]), (3, [0]), (10, [0, 1]), (3, [1])]
+    return Case(cid, [ty, nh, nb, seed, sh], ops, tag="cm-malformed")
+
+
+def gen_bigalloc_case(rng, cid, tier):
+    """C14: a header announcing a huge table (accepted configuration, < 2^30 cells) on a tiny input.
+    Known finding: the crate allocates the whole table before looking at the payload."""
+    ty, mx = rng.choice(TYPES)
+    seed = 9001; sh = pyref.seed_hash(seed)
+    tsize = [1, 2, 4, 8, 1, 2, 4, 8][ty]
+    ops = []
+    for _ in range(3):
+        nh = rng.choice([1, 4, 64, 255])
+        nb = rng.choice([2**24, 2**26, (2**30 - 1) // nh])
+        nb = max(3, min(nb, (2**30 - 1) // nh))
+        while nh * nb * tsize < 4 * (64 * 64 + 2**20):
+            nb *= 2
+        if nh * nb >= 2**30:
+            continue
+        flags = rng.choice([0, 1])
+        img = header(nh, nb, sh, flags=flags) + [rng.randrange(256) for _ in range(rng.choice([0, 8, 40]))]
+        ops += [(9, [0] + img), (8, [0])]
+    return Case(cid, [ty, 1, 3, seed, sh], ops, tag="cm-malformed-bigalloc")
+
+
 def gen(rng, tier, n=None, focus=None):
     n = n or (120 if tier == "quick" else 1200)
+    if focus == "codec":
+        return [gen_codec_case(rng, i, tier) for i in range(n)]
+    if focus == "malformed":
+        return [gen_malformed_case(rng, i, tier) for i in range(n)] + [gen_bigalloc_case(rng, n + i, tier) for i in range(6)]
     return [gen_case(rng, i, tier, focus) for i in range(n)]
 
 
 def nontrivial(case, obs):
-    """a case is non-trivial when it updates at least 2 distinct items and queries at least one"""
+    """non-trivial: updates >= 2 distinct items and queries at least one; or forks a non-empty sketch and
+    compares the twins; or feeds at least 3 images to deserialize of which one is accepted and one rejected"""
     items = {a[1] for (c, a) in case.ops if c == 1 and a[2] > 0}
-    return len(items) >= 2 and any(c == 2 for (c, a) in case.ops)
+    if len(items) >= 2 and any(c == 2 for (c, a) in case.ops):
+        return True
+    if any(c == 10 for (c, a) in case.ops) and items:
+        return True
+    res = [o for (c, a), o in zip(case.ops, obs or []) if c == 9]
+    return len(res) >= 3 and [1] in res and [-998] in res
+
+
+def kf_empty_flag_alloc(case):
+    """known finding C14-countmin-empty-alloc: every out-of-proportion allocation (-997) in the case comes from a
+    deserialize op whose image has the EMPTY flag set (the table of an empty sketch is inherent in the format)"""
+    hits = [(c, a) for (c, a), o in zip(case.ops, case.obs or []) if o[:1] == [-997]]
+    return bool(hits) and all(c == 9 and len(a) >= 5 and (a[1 + 3] & 1) for c, a in hits)
